@@ -1,5 +1,6 @@
 \* intended switches, quick family: TLC must pass; PROG lines feed the replay
 CONSTANTS LoopDelayOwnFreeVars = TRUE LoopDurationMapped = TRUE ParamValuesReachDelays = TRUE
+          ChecksBeforeSave = TRUE AliasesReachDurations = TRUE
           Family = "quick"
 INIT Init
 NEXT Next
@@ -9,4 +10,6 @@ INVARIANT TypeOK
 INVARIANT RejectsExactly
 INVARIANT ArgumentsPreserved
 INVARIANT NoPlaceholderLeft
+INVARIANT CacheHoldsOnlyAccepted
+INVARIANT SameAnswerTwice
 CHECK_DEADLOCK FALSE
